@@ -385,6 +385,9 @@ def check_C02(chk, tier, seed):
     # a message inside the round-trip domain (wire domain by the model's oracle, typed by its dictionary, depth within the
     # limit) that the implementation builds but cannot encode never reaches stage 2: that is a failure of the round trip too
     for i, (c, im, mo) in enumerate(zip(cases, impl, model)):
+        if im.startswith(("PANIC", "CRASH")):
+            chk.violation("building / encoding a message crashed: " + short(im, 200), dict(case=c, impl=short(im, 600)))
+            break
         if im.startswith("R ok") and " ENC ERR" in im:
             mobs, o = split_obs(mo)
             try:
